@@ -119,9 +119,10 @@ def scan_trusted(text, linemap):
     return out, bad
 
 
-def build(unit, repo=REPO):
+def build(unit, repo=REPO, features=()):
     """-> (text, linemap, marks, registry)"""
     registry = []
+    extract.FEATURES = set(features)
     tpl = os.path.join(VERIF, "units", unit + ".rs")
     pieces = extract.expand(tpl, repo, VERIF, registry)
     text, linemap, marks = extract.assemble(pieces)
@@ -132,7 +133,7 @@ def run(unit, features=(), repo=REPO, seed=None, rlimit=40, extra_args=(), tag="
     t0 = time.time()
     res = UnitResult(unit)
     try:
-        text, linemap, marks, registry = build(unit, repo)
+        text, linemap, marks, registry = build(unit, repo, features)
     except extract.ExtractError as e:
         res.status = "anchor_lost"
         res.detail = str(e)
@@ -159,6 +160,8 @@ def run(unit, features=(), repo=REPO, seed=None, rlimit=40, extra_args=(), tag="
     for idx, e in enumerate(registry):
         e["gen_begin"] = marks.get(idx, {}).get("begin")
         e["gen_end"] = marks.get(idx, {}).get("end")
+        e["canary_begin"] = marks.get(idx, {}).get("cbegin")
+        e["canary_end"] = marks.get(idx, {}).get("cend")
     clause_props = {}
     for e in registry:
         for kind, label, props in e["clauses"]:
@@ -240,16 +243,19 @@ def run(unit, features=(), repo=REPO, seed=None, rlimit=40, extra_args=(), tag="
         if d.fn:
             d.fn_name = d.fn["name"]
         # clause: any span line that is a woven clause line
-        for s in spans:
-            for gl in range(s["line_start"], s["line_end"] + 1):
-                o = linemap[gl - 1] if 0 < gl <= len(linemap) else None
-                if o and "clause" in o and not o["clause"].startswith("canary"):
-                    d.clause = o["clause"]
-                    d.props = clause_props.get(d.clause, [])
-                    break
-            if d.clause:
+        for s in sorted(spans, key=lambda s: 0 if "failed th" in (s.get("label") or "") else 1):
+            gl = s["line_start"]
+            # a clause may span several generated lines: the label sits on every one of them
+            o = linemap[gl - 1] if 0 < gl <= len(linemap) else None
+            if o and "clause" in o and not o["clause"].startswith("canary"):
+                d.clause = o["clause"]
+                d.props = clause_props.get(d.clause, [])
                 break
         if d.gen_line:
+            for e in registry:
+                if e.get("canary_begin") and e["canary_begin"] <= d.gen_line <= e["canary_end"]:
+                    d.canary = True
+                    d.fn, d.fn_name = e, e["name"]
             o = linemap[d.gen_line - 1] if d.gen_line <= len(linemap) else None
             if o and "file" in o:
                 d.repo_loc = "%s:%d" % (os.path.relpath(o["file"], repo), o["line"])
@@ -258,7 +264,7 @@ def run(unit, features=(), repo=REPO, seed=None, rlimit=40, extra_args=(), tag="
             elif o and "clause" in o:
                 d.repo_loc = "clause " + o["clause"]
             src_line = text.split("\n")[d.gen_line - 1] if d.gen_line <= text.count("\n") + 1 else ""
-            if "__canary" in src_line:
+            if "__canary" in src_line or (o and str(o.get("clause", "")).startswith("canary")):
                 d.canary = True
         if "__canary" in d.rendered.split("\n", 3)[-1][:400] and d.kind in ("assertion", "precondition"):
             # the twin's `assert(false)` / `unreached()`
@@ -313,6 +319,8 @@ if __name__ == "__main__":
         if not v["success"] or a.v:
             print("  ", "ok  " if v["success"] else "FAIL", k, v["ms"], "ms")
     for d in r.diags:
+        if d.kind == "compile":
+            print("  C:", d.message[:300].replace("\n", " "))
         print("-", d.kind, "| fn", d.fn_name, "| clause", d.clause, d.props, "|", d.repo_loc, "| gen", d.gen_line, "| canary" if d.canary else "")
         if (d.kind == "compile" and d is [x for x in r.diags if x.kind == "compile"][0]) or a.v:
             print(d.rendered[:1500])
